@@ -25,6 +25,8 @@
 
 #include <iora/core/logger.hpp>
 
+#include <sys/resource.h>
+
 #include <algorithm>
 #include <atomic>
 #include <deque>
@@ -511,11 +513,14 @@ enum Target
   TBlackHole,    // TCP only
   TTlsGarbage,   // TCP only: TLS client connect to a raw peer that answers garbage
   TTlsStall,     // TCP only: TLS client connect to a raw peer that never answers (handshakeTimeout)
+  TUnreachable,  // 255.255.255.255: connect() fails synchronously with ENETUNREACH inside doConnect
+  TTlsServerMode,// connect(..., TlsMode::Server): never valid for an outbound connection - must fail closed
+  TFdExhausted,  // RLIMIT_NOFILE lowered while the connect is processed: socket() fails (EMFILE)
   kTargetMax
 };
 const char *targetName(int t)
 {
-  static const char *n[] = {"listening", "refused", "unresolvable", "blackhole", "tls-garbage", "tls-stall"};
+  static const char *n[] = {"listening", "refused", "unresolvable", "blackhole", "tls-garbage", "tls-stall", "unreachable", "tls-server-mode", "fd-exhausted"};
   return n[(t % kTargetMax + kTargetMax) % kTargetMax];
 }
 
@@ -533,6 +538,7 @@ struct LPlan
   int reconnectTarget{0};
   bool waitBeforeStop{false}; // wait (bounded) for every definite cause before the final stop
   bool allowRearmAfterClose{false}; // fixed reproducers of C02-2 only
+  int tlsCfg{2}; // client TLS: 0 disabled (the default), 1 enabled but defaultMode None (no context), 2 fully configured
   bool unobserveInGlobal{false}; // the global close callback unobserves one observer of the closing session
   bool restart{false};        // after the stop: start() again, one accept + one connect, stop() (ids stay distinct)
   std::vector<LOp> ops;
@@ -543,7 +549,7 @@ std::string describeLife(const LPlan &p)
   std::string s = p.udp ? "udp" : "tcp";
   s += pbt::Fmt() << " edge=" << p.edge << " hiRes=" << p.hiRes << " batch=" << p.batching << " gc=" << p.gcCase
                   << " connTmo=" << p.connectTimeoutMs << " mwq=" << p.maxWriteQueue << " reconnectInClose=" << p.reconnect
-                  << "/" << targetName(p.reconnectTarget) << " waitBeforeStop=" << p.waitBeforeStop << " restart=" << p.restart << " unobserveInGlobal=" << p.unobserveInGlobal << " ops:";
+                  << "/" << targetName(p.reconnectTarget) << " waitBeforeStop=" << p.waitBeforeStop << " restart=" << p.restart << " unobserveInGlobal=" << p.unobserveInGlobal << " tlsCfg=" << p.tlsCfg << " ops:";
   for (auto &o : p.ops)
   {
     s += std::string(" ") + opName(o.op);
@@ -589,11 +595,14 @@ void runLifecycle(const LPlan &plan, pbt::Case &c)
   cfg.maxWriteQueue = static_cast<std::size_t>(plan.maxWriteQueue);
   bool needTls = false;
   for (auto &o : plan.ops)
-    if ((o.op == NewConnect || o.op == NewSync || o.op == NewVia) && (o.a % kTargetMax == TTlsGarbage || o.a % kTargetMax == TTlsStall)) needTls = true;
-  if (needTls && !plan.udp)
+    if ((o.op == NewConnect || o.op == NewSync || o.op == NewVia) &&
+        (o.a % kTargetMax == TTlsGarbage || o.a % kTargetMax == TTlsStall || o.a % kTargetMax == TTlsServerMode)) needTls = true;
+  if (needTls && !plan.udp && plan.tlsCfg != 0)
   {
+    // the configuration dimension: enabled-without-a-mode yields no client context, exactly like
+    // "disabled" - a connect that asks for TLS must then fail closed WITH its terminal close
     cfg.clientTls.enabled = true;
-    cfg.clientTls.defaultMode = TlsMode::Client;
+    cfg.clientTls.defaultMode = plan.tlsCfg == 2 ? TlsMode::Client : TlsMode::None;
     cfg.clientTls.verifyPeer = false;
     cfg.handshakeTimeout = std::chrono::milliseconds(2 * plan.connectTimeoutMs);
   }
@@ -856,13 +865,27 @@ void runLifecycle(const LPlan &plan, pbt::Case &c)
     }
     else
     if (udp && (target == TBlackHole || target == TTlsGarbage || target == TTlsStall)) target = s.target = TListening;
-    if (via && (target == TTlsGarbage || target == TTlsStall)) target = s.target = TListening;
-    const bool tls = target == TTlsGarbage || target == TTlsStall;
+    if (via && (target == TTlsGarbage || target == TTlsStall || target == TTlsServerMode || target == TFdExhausted || target == TUnreachable))
+      target = s.target = TListening;
+    if (udp && target == TTlsServerMode)
+    {
+      // UDP refuses TLS synchronously: no id may be handed out (if one is, the usual oracle applies)
+      auto r0 = sync ? t->connectSync("127.0.0.1", refusedPort, TlsMode::Client, std::chrono::milliseconds(1000))
+                     : t->connect("127.0.0.1", refusedPort, TlsMode::Client);
+      if (r0.isOk()) log.add(sync ? K::ReturnedSync : K::Returned, r0.value());
+      else c.label("udp: TLS connect refused synchronously");
+      return;
+    }
+    const bool tlsTarget = target == TTlsGarbage || target == TTlsStall;
+    const bool tls = tlsTarget && plan.tlsCfg == 2;                                  // a handshake really starts
+    const bool tlsRefused = (tlsTarget && plan.tlsCfg != 2) || target == TTlsServerMode; // must fail closed
+    const TlsMode tlsMode = target == TTlsServerMode ? TlsMode::Server : tlsTarget ? TlsMode::Client : TlsMode::None;
     if (sharedFd >= 0)
     {
     }
-    else if (target == TListening || tls)
+    else if (target == TListening || tlsTarget || target == TTlsServerMode || target == TFdExhausted)
     {
+      // (fail-closed TLS targets also get a live listener: a wrongly clear-text connect would succeed)
       lfd = udp ? bag.add(c02raw::udpBind(port)) : bag.add(c02raw::tcpListen(port, 8, peerRcvBuf));
       if (lfd < 0)
       {
@@ -874,6 +897,11 @@ void runLifecycle(const LPlan &plan, pbt::Case &c)
     else if (target == TUnresolvable)
     {
       host = badHost;
+      port = 9;
+    }
+    else if (target == TUnreachable)
+    {
+      host = "255.255.255.255"; // ENETUNREACH straight from connect() (TCP); UDP: EACCES/none
       port = 9;
     }
     else
@@ -917,11 +945,47 @@ void runLifecycle(const LPlan &plan, pbt::Case &c)
     }
     else if (sync)
     {
-      int tmo = target == TBlackHole ? 40 + plan.connectTimeoutMs / 2 : 10000;
-      r = t->connectSync(host, port, tls ? TlsMode::Client : TlsMode::None, std::chrono::milliseconds(tmo));
+      // a connect that must fail closed gets a timeout beyond B: a definite error has to come from
+      // the engine's terminal close, not from the caller's own timeout
+      int tmo = target == TBlackHole ? 40 + plan.connectTimeoutMs / 2 : tlsRefused ? kBoundMs + 8000 : 10000;
+      auto t0 = std::chrono::steady_clock::now();
+      r = t->connectSync(host, port, tlsMode, std::chrono::milliseconds(tmo));
+      auto ms = std::chrono::duration_cast<std::chrono::milliseconds>(std::chrono::steady_clock::now() - t0).count();
+      if (tlsRefused && !r.isOk() && ms >= kBoundMs)
+      {
+        c.failTimed("C02/connectSync-parked/tls-not-configured",
+                    "connectSync(..., TLS) on a transport without a usable client TLS configuration (tlsCfg=" + std::to_string(plan.tlsCfg) +
+                      ", mode " + (tlsMode == TlsMode::Server ? "Server" : "Client") + ") did not get a definite error for " +
+                      std::to_string(ms) + " ms: the attempt was not failed by a terminal close");
+        bail = true;
+      }
+    }
+    else if (target == TFdExhausted)
+    {
+      // no descriptor can be created while the I/O thread processes this connect: socket() -> EMFILE
+      rlimit old{};
+      ::getrlimit(RLIMIT_NOFILE, &old);
+      rlimit lo = old;
+      lo.rlim_cur = 3;
+      ::setrlimit(RLIMIT_NOFILE, &lo);
+      r = t->connect(host, port, TlsMode::None);
+      bool closedInWindow = r.isOk() && log.hasClose(r.value(), 2000);
+      ::setrlimit(RLIMIT_NOFILE, &old);
+      if (r.isOk())
+      {
+        s.sid = r.value();
+        s.sidKnown = true;
+        log.add(K::Returned, s.sid);
+        // definite only if the failure was seen inside the window (otherwise the connect may have
+        // been processed after the limit was restored and simply succeeded)
+        if (closedInWindow) issueCause(s, Cause::FdExhausted, true);
+        else c.label("fd-exhausted: connect processed outside the window");
+        sess.push_back(s);
+      }
+      return;
     }
     else
-      r = t->connect(host, port, tls ? TlsMode::Client : TlsMode::None);
+      r = t->connect(host, port, tlsMode);
     if (tlsPeer.joinable())
     {
       tlsPeer.join();
@@ -953,6 +1017,10 @@ void runLifecycle(const LPlan &plan, pbt::Case &c)
         s.established = true;
       }
     }
+    else if (tlsRefused)
+    {
+      issueCause(s, Cause::TlsNotConfigured, true);
+    }
     else if (tls)
     {
       s.rawFd = tlsFd;
@@ -963,8 +1031,9 @@ void runLifecycle(const LPlan &plan, pbt::Case &c)
     {
       // a connect that cannot succeed is itself a close cause
       std::uint64_t cause = target == TRefused ? (via ? Cause::BadListener : Cause::ConnRefused)
-                          : target == TUnresolvable ? Cause::Unresolvable : Cause::ConnTimeout;
+                          : target == TUnresolvable ? Cause::Unresolvable : target == TUnreachable ? Cause::Unreachable : Cause::ConnTimeout;
       bool definite = true;
+      if (udp && target == TUnreachable) definite = false; // whether a UDP connect() to broadcast fails is the kernel's business
       if (udp && target == TRefused && !via) definite = false; // UDP connect succeeds; ICMP is optional
       if (udp && target == TRefused && !via) cause = Cause::IcmpRefused;
       if (cause != Cause::IcmpRefused) issueCause(s, cause, definite);
@@ -1246,7 +1315,23 @@ void runLifecycle(const LPlan &plan, pbt::Case &c)
     case Quiesce:
       if (!quiesce()) bail = true;
       break;
-    case Sleep: std::this_thread::sleep_for(std::chrono::milliseconds(op.a % 20)); break;
+    case Sleep:
+      if (op.a % 20 >= 17)
+      {
+        // listener-side equivalent: a TLS listener on a transport without server TLS (and a listener
+        // with TlsMode::Client, which is never valid) must be refused, never come up in clear text
+        auto lr3 = t->addListener("127.0.0.1", 0, op.a % 2 ? TlsMode::Server : TlsMode::Client);
+        if (lr3.isOk())
+        {
+          c.fail("C02/tls-listener-without-tls-accepted", "addListener(..., TLS) returned ok on a transport without server TLS");
+          bail = true;
+        }
+        else
+          c.label("TLS listener refused");
+        break;
+      }
+      std::this_thread::sleep_for(std::chrono::milliseconds(op.a % 20));
+      break;
     case GcWait:
       if (plan.gcCase)
       {
@@ -1432,6 +1517,7 @@ LPlan genLifePlan(pbt::Src &src, bool udp)
   p.waitBeforeStop = src.coin(1, 2);
   p.restart = src.coin(1, 6);
   p.unobserveInGlobal = src.coin(1, 4);
+  p.tlsCfg = static_cast<int>(src.weighted({1, 1, 2}));
   auto rows = src.rows(22, 4, 0, 999);
   // weighted op table
   static const int wt[] = {NewAccept, NewAccept, NewAccept, NewAccept, NewConnect, NewConnect, NewConnect, NewConnect, NewSync,
@@ -1448,9 +1534,10 @@ LPlan genLifePlan(pbt::Src &src, bool udp)
     o.c = static_cast<int>(r[3]);
     if (o.op == NewConnect || o.op == NewSync || o.op == NewVia)
     {
-      // target weights: listening 5, refused 2, unresolvable 1, black hole 2, TLS garbage 1, TLS stall 1
-      static const int tw[] = {0, 0, 0, 0, 0, 1, 1, 2, 3, 3, 4, 5};
-      o.a = tw[static_cast<std::size_t>(r[1]) % 12];
+      // target weights: listening 5, refused 2, unresolvable 1, black hole 2, TLS garbage 1, TLS stall 1,
+      // unreachable 1, TLS server mode 1, fd exhausted 1
+      static const int tw[] = {0, 0, 0, 0, 0, 1, 1, 2, 3, 3, 4, 5, 6, 7, 8};
+      o.a = tw[static_cast<std::size_t>(r[1]) % 15];
     }
     if (udp && o.op == NewSync && r[3] % 2 == 0) o.op = NewVia; // UDP: connectSync == connect; spend it on via
     if (o.op == GcWait && !p.gcCase) o.op = Sleep;
@@ -1622,6 +1709,31 @@ PBT_REGRESSION(unobserve_in_global_udp)
   p.udp = true;
   p.unobserveInGlobal = true;
   p.ops = {{NewAccept, 0, 0, 0}, {Observe, 0, 0, 0}, {Observe, 0, 0, 0}, {AppClose, 0, 0, 0}, {Quiesce, 0, 0, 0}, {NewAccept, 0, 0, 0}, {Observe, 1, 0, 0}};
+  runLifecycle(p, c);
+}
+// TLS requested without a usable client TLS configuration (disabled / enabled with defaultMode None),
+// and TlsMode::Server on an outbound connect: every id returned by connect() gets its terminal close,
+// connectSync gets a definite error at once; plus the synchronous-errno and no-descriptor paths
+PBT_REGRESSION(tls_not_configured_tcp)
+{
+  for (int cfgKind = 0; cfgKind < 2 && !c.failed(); ++cfgKind)
+  {
+    LPlan p;
+    p.udp = false;
+    p.tlsCfg = cfgKind;
+    p.waitBeforeStop = true;
+    p.ops = {{NewConnect, TTlsGarbage, 0, 0}, {NewSync, TTlsStall, 0, 0}, {NewConnect, TTlsServerMode, 0, 0}, {NewSync, TTlsServerMode, 0, 0},
+             {NewConnect, TUnreachable, 0, 0}, {NewConnect, TFdExhausted, 0, 0}, {Sleep, 19, 0, 0}, {Sleep, 18, 0, 0}, {Quiesce, 0, 0, 0}};
+    runLifecycle(p, c);
+  }
+}
+PBT_REGRESSION(connect_failure_paths_udp)
+{
+  LPlan p;
+  p.udp = true;
+  p.waitBeforeStop = true;
+  p.ops = {{NewConnect, TTlsServerMode, 0, 0}, {NewSync, TTlsServerMode, 0, 0}, {NewConnect, TUnreachable, 0, 0}, {NewConnect, TFdExhausted, 0, 0},
+           {NewConnect, TUnresolvable, 0, 0}, {Sleep, 19, 0, 0}, {Quiesce, 0, 0, 0}};
   runLifecycle(p, c);
 }
 // every close cause once, sequentially, TCP
